@@ -68,8 +68,10 @@ fn run_closure_l<L: Language>(case: &Hist, dir: Dir, obs: &mut Obs) -> Result<()
         return Ok(());
     }
     let m = Ground::max_fv(&terms);
-    let n_small = (2 * m + 1).max(3);
-    let n_big = 3 * m + 1;
+    // two nodes with k binders need k common fresh names: 2m + k names at least
+    let maxnb = terms.iter().flat_map(|t| t.subterms()).flat_map(|s| s.kids().into_iter().map(|(b, _)| b.len()).collect::<Vec<_>>()).max().unwrap_or(0);
+    let n_small = (2 * m + maxnb.max(1)).max(3);
+    let n_big = (3 * m + 1).max(n_small);
     let mut g = Ground::new(&terms, n_small);
     if g.too_big {
         obs.label("oracle-too-big");
@@ -336,22 +338,24 @@ fn run_closure_l<L: Language>(case: &Hist, dir: Dir, obs: &mut Obs) -> Result<()
     // that is larger by two names; all answers on inserted (sub)terms must coincide.  A disagreement is a failed self-check
     // of the oracle (exit 2), never a violation.
     if crate::engine::is_thorough() && dir == Dir::Sound && case.render().len() % 8 == 0 {
-        let g2 = escalate(case, case.ops.len(), n_small + 2);
-        if !g2.too_big {
+        // the pool at which C01 verdicts are issued, against a pool that is larger by two names
+        let g = escalate(case, case.ops.len(), n_big.max(n_small));
+        let g2 = escalate(case, case.ops.len(), n_big.max(n_small) + 2);
+        if !g2.too_big && !g.too_big {
             let subs = all_subterms(&added);
             for (i, a) in subs.iter().enumerate() {
                 for b in subs.iter().skip(i + 1) {
                     if let (Some(x), Some(y)) = (g.eq_terms(a, b), g2.eq_terms(a, b)) {
                         obs.count("oracle-selfcheck-comparisons", 1);
                         if x != y {
-                            return Err(format!("INCONCLUSIVE: oracle self-check: pools {} and {} disagree on {} = {}", n_small, n_small + 2, a.render(nm), b.render(nm)));
+                            return Err(format!("INCONCLUSIVE: oracle self-check: pools {} and {} disagree on {} = {}", g.n, g2.n, a.render(nm), b.render(nm)));
                         }
                     }
                 }
                 for x in a.fv() {
                     if let (Some(p), Some(q)) = (g.redundant(a, x), g2.redundant(a, x)) {
                         if p != q {
-                            return Err(format!("INCONCLUSIVE: oracle self-check: pools {} and {} disagree on the redundancy of {} in {}", n_small, n_small + 2, nm.slot(x), a.render(nm)));
+                            return Err(format!("INCONCLUSIVE: oracle self-check: pools {} and {} disagree on the redundancy of {} in {}", g.n, g2.n, nm.slot(x), a.render(nm)));
                         }
                     }
                 }
